@@ -42,6 +42,15 @@ CHECKS.update({
                 note=TRUST),
 })
 
+CHECKS.update({
+    "C09": dict(level=EX, design="3 C09", technique="Chess.tla ray geometry as oracle; exhaustive dump of every ray-square subset for all 64 squares validated by TLC (MagicTrace.tla), which also proves the enumeration complete",
+                text="All 1 119 744 rook/bishop ray-subset occupancies (edge squares included), random full-board occupancies for rook/bishop/queen through both entry points, and the fixed knight/king/pawn patterns are compared by TLC with the ray walk; MagicTrace checks the enumeration itself (ray squares, distinct blocks, block count), so exhaustiveness is established by the specification, in both tiers.",
+                note=TRUST + "; pure function: the specification is an oracle here, exhaustiveness comes from enumeration, not state exploration"),
+    "C20": dict(level=EX, design="3 C20", technique="MoveValue.tla constructor algebra (model-checked read-back on a reduced domain) + TLC trace validation of the implementation's entire constructor domain (1 482 756 values)",
+                text="Every value of the constructor domain is built, read back through the nine accessors, compared for equality/inequality, serialised and restored; TLC compares each with the abstract constructor and checks raw distinctness per event. Exhaustive in both tiers.",
+                note=TRUST + "; the bit layout is deliberately not specified"),
+})
+
 NOT_YET = {
 }
 
